@@ -160,6 +160,58 @@ def _exec_matrix(case):
     return [ev], []
 
 
+ARRAY_X = [1.0, 2.5, 300.0, -40.0, 0.0]
+
+
+def _exec_array(case):
+    """Array-valued arguments: the same container object is converted several times."""
+    import numpy as np
+    from pmutt import constants as c
+    evs, mism = [], []
+    for a, b, w in case['triples']:
+        for kind in ('f64', 'i64', 'list'):
+            if kind == 'f64':
+                X = np.array(ARRAY_X, dtype=np.float64)
+            elif kind == 'i64':
+                X = np.array([int(v) for v in ARRAY_X], dtype=np.int64)
+            else:
+                X = list(ARRAY_X)
+            x0 = [float(v) for v in X]
+
+            def snap(obj):
+                return [to_dec2(float(v)) for v in np.ravel(np.asarray(obj, dtype=float))]
+
+            e = {'ev': 'array', 'type': case['type'], 'a': a, 'b': b, 'w': w, 'kind': kind,
+                 'x': [to_dec2(v) for v in x0], 'after': [], 'raised': False}
+            ok, y1 = _call(c.convert_unit, num=X, initial=a, final=b)
+            e['after'].append(snap(X))
+            if not ok:
+                e['raised'] = True
+                e['exception'] = y1
+                evs.append(e)
+                continue
+            try:
+                y1snap = snap(y1)
+                y2 = c.convert_unit(num=X, initial=a, final=w)
+                e['after'].append(snap(X))
+                y2snap = snap(y2)
+                y0 = c.convert_unit(num=X, initial=a, final=a)
+                e['after'].append(snap(X))
+                y0snap = snap(y0)
+                y3snap = snap(c.convert_unit(num=y1, initial=b, final=w))
+                y4snap = snap(c.convert_unit(num=y1, initial=b, final=a))
+                e.update({'y1': y1snap, 'y2': y2snap, 'y0': y0snap, 'y3': y3snap, 'y4': y4snap,
+                          'y1after': snap(y1),
+                          's1': [to_dec2(c.convert_unit(num=v, initial=a, final=b)) for v in x0],
+                          's2': [to_dec2(c.convert_unit(num=v, initial=a, final=w)) for v in x0]})
+            except Exception as ex:          # accepted once, then failed on the same container
+                mism.append({'clause': 'Raises', 'u': a, 'v': b, 'kind': kind,
+                             'raised': '%s: %s' % (type(ex).__name__, ex)})
+                continue
+            evs.append(e)
+    return evs, mism
+
+
 def _doc_fields(docmap, key):
     if key in docmap:
         try:
@@ -325,7 +377,7 @@ def _exec_elements(case):
     return evs, mism
 
 
-EXEC = {'row': _exec_row, 'temps': _exec_temps, 'matrix': _exec_matrix, 'tables': _exec_tables,
+EXEC = {'row': _exec_row, 'array': _exec_array, 'temps': _exec_temps, 'matrix': _exec_matrix, 'tables': _exec_tables,
         'spectro': _exec_spectro, 'elements': _exec_elements}
 
 
@@ -375,6 +427,22 @@ def _build_cases(ctx, gen):
             nums = NUMS + [round(_loguniform(rnd, 1e-6, 1e6), 6) * rnd.choice([1, -1])
                            for _ in range(extra)]
         cases.append({'kind': 'matrix', 'type': t, 'nums': nums})
+    # array-valued arguments: quick = every unit with its two cyclic successors (both directions),
+    # thorough = every ordered pair with a third unit
+    for t in sorted(set(c.type_dict.values())):
+        us = [u for u, ty in c.type_dict.items() if ty == t]
+        n = len(us)
+        triples = []
+        if ctx.quick:
+            for i in range(n):
+                triples.append([us[i], us[(i + 1) % n], us[(i + 2) % n]])
+                triples.append([us[(i + 1) % n], us[i], us[(i + n - 1) % n]])
+        else:
+            for i in range(n):
+                for j in range(n):
+                    if i != j:
+                        triples.append([us[i], us[j], us[(j + 1 + (1 if (j + 1) % n == i else 0)) % n]])
+        cases.append({'kind': 'array', 'type': t, 'triples': triples})
     si = {}
     for t in gen['types']:
         si[t['type']] = t['si']
@@ -414,6 +482,8 @@ def _signature(case):
         return 'row:' + case['u']
     if k == 'matrix':
         return 'matrix:' + case['type']
+    if k == 'array':
+        return 'array:' + case['type']
     return k + ':' + core._hash(case)
 
 
@@ -421,7 +491,7 @@ def _tags(case, ev):
     tags = {'kind': case['kind']}
     if ev is not None:
         tags['ev'] = ev.get('ev', '')
-        for f in ('name', 'key', 'type', 'u', 'fn', 'arg'):
+        for f in ('name', 'key', 'type', 'u', 'fn', 'arg', 'a', 'b', 'w', 'kind'):
             if f in ev:
                 tags['entry' if f in ('name', 'key') else f] = ev[f]
     return tags
@@ -473,6 +543,16 @@ def run(ctx):
         traces.append((tid, events))
         if case['kind'] in ('matrix', 'tables'):
             ctx.sample({k: v for k, v in case.items() if k in ('kind', 'type', 'nums')})
+    # vacuity counter of the array probes: how many were accepted (and so fully judged) per container
+    probes = {}
+    for _, evs in traces:
+        for ev in evs:
+            if ev.get('ev') == 'array':
+                k = ev['kind'] + ('_refused' if ev['raised'] else '_judged')
+                probes[k] = probes.get(k, 0) + 1
+    ctx.coverage['array_probes'] = probes
+    if ctx.replay_case is None and not any(k.startswith(('f64', 'i64')) for k in probes):
+        raise core.MachineryError('no array-valued probe was made: %r' % (probes,))
     fails, stats = core.validate_traces('Trace_Units', 'Trace', traces)
     ctx.count('traces_validated_against_impl', len([t for t in traces if t[1]]))
     ctx.coverage['trace_lines'] = stats['lines']
@@ -503,7 +583,7 @@ def run(ctx):
 
 
 def case_small(ev):
-    return ev.get('ev') not in ('matrix', 'temp', 'cross', 'spec')
+    return ev.get('ev') not in ('matrix', 'temp', 'cross', 'spec', 'array')
 
 
 if __name__ == '__main__':
